@@ -101,7 +101,8 @@ def integral_matching_reference_stretch(x, y, x_ref, y_ref, fixed_points_in_x=No
 
     if fixed_points_indices_in_x is not None:
         fixed_points_indices_in_x = np.unique(fixed_points_indices_in_x)
-        if len(fixed_points_indices_in_x) > 0 and fixed_points_indices_in_x[-1] >= len(x):
+        if len(fixed_points_indices_in_x) > 0 and (fixed_points_indices_in_x[-1] >= len(x)
+                                                   or fixed_points_indices_in_x[0] < -len(x)):
             raise ValueError("some of the fixed points indices are not in the `x`")
         fixed_points_in_x = x.take(fixed_points_indices_in_x)
         fixed_points_in_x_ref = x_ref.take(
